@@ -83,6 +83,15 @@ def check_eventlist(ctx, cname):
 
     ctx.rule('R1.1', f'heap discipline of {cname}.{F}: every mutation preserving, or restored on every path; no escape')
     nmut = 0
+    lazy = deferred_restore(ctx, cname, ci, F, isF)
+    if lazy is not None:
+        D_, lazy_probs = lazy
+        for mname, probs in lazy_probs.items():
+            ctx.examined()
+            ctx.ob('R1.1', f'{cname}.{mname}:deferred-restore', not probs,
+                   sample=f'{cname}.{mname}: heap order or flag `{D_}` at every exit, order restored before every use: {not probs}')
+            for (node_, msg_) in probs[:2]:
+                ctx.finding('R1.1', f'{cname}.{mname}:deferred-restore', ci, node_, msg_, where=f'{cname}.{mname}')
     for mname, fn in ci.methods.items():
         cfg = None
         breaking, restore_h, restore_up, restore_down = [], [], [], []
@@ -114,6 +123,8 @@ def check_eventlist(ctx, cname):
             p1 = g.reaches(node, g.exit, avoid=restore_h + restore_up, labels_excluded=('exc', 'raise', 'reraise'))
             p2 = g.reaches(node, g.exit, avoid=restore_h + restore_down, labels_excluded=('exc', 'raise', 'reraise'))
             ok = not (p1 or p2)
+            if not ok and lazy is not None:
+                ok = True                  # decided by the typestate of the deferred restore above (proved, or reported there)
             if not ok:
                 # deleting the LAST element of a heap leaves a heap: a path that skips the restoring call is fine when it has established
                 # `i >= len(F)` for the deleted position i after the deletion (`if i < len(F): heapify(F)`)
@@ -289,6 +300,155 @@ def check_eventlist(ctx, cname):
                             where=f'{cname}.{mname}')
 
     r15_observers(ctx, cname, ci, F, ev_index, isF, writer)
+
+
+def deferred_restore(ctx, cname, ci, F, isF):
+    """Heap order restored lazily: removals raise a flag instead of re-heapifying, and every operation that relies on the order first
+    restores it when the flag is up.  Decided as a typestate over (heap order holds?, flag up?): every method starts from the class
+    invariant `order holds or flag up`; a breaking mutation clears the first component, heapify / clear / a fresh list set it, stores of
+    constants into the flag set the second, tests of the flag split the state, methods of self are walked in place.  Required: the
+    invariant at every normal exit, and `order holds` wherever heapq functions or F[0] are used.
+    -> None when the class has no such flag; else {method name: [(node, message)]} (empty lists = proved)."""
+    # the flag: a field tested in front of a heapify and assigned constants only
+    flags = set()
+    for fn in ci.methods.values():
+        for st in walk_shallow(fn):
+            if isinstance(st, ast.If) and any(_heapq_call(x) and _heapq_call(x)[0] == 'heapify' and isF(_heapq_call(x)[1]) for b in st.body for x in ast.walk(b)):
+                t = st.test
+                if isinstance(t, ast.UnaryOp) and isinstance(t.op, ast.Not):
+                    continue
+                if is_self_attr(t):
+                    flags.add(t.attr)
+    flags = {D for D in flags if all(isinstance(a.value, ast.Constant) and isinstance(a.value.value, bool)
+                                     for fn in ci.methods.values() for a in walk_shallow(fn)
+                                     if isinstance(a, (ast.Assign, ast.AnnAssign)) and getattr(a, 'value', None) is not None
+                                     and any(is_self_attr(t, D) for t in (a.targets if isinstance(a, ast.Assign) else [a.target])))}
+    if len(flags) != 1:
+        return None
+    D = next(iter(flags))
+    INV = frozenset({(True, False), (True, True), (False, True)})
+    problems = {}
+
+    class _Ret(Exception):
+        pass
+
+    def step_expr(e, states, out, where, depth):
+        """effects and requirements of one expression (in evaluation order as far as it matters here)"""
+        for n in ast.walk(e):
+            hc = _heapq_call(n)
+            if hc and isF(hc[1]):
+                if hc[0] == 'heapify':
+                    states = frozenset((True, f) for (_h, f) in states)
+                elif hc[0] in PRESERVING_HEAPQ or hc[0] in ('nsmallest', 'nlargest'):
+                    if any(not h for (h, _f) in states):
+                        out.append((n, f'`{short(n)}` relies on the heap order of {F}, but a removal whose restore was deferred (flag `{D}` up) may not have been '
+                                       f'restored on this path: the entry handled here need not be the smallest'))
+                    # the operation itself keeps a heap a heap
+                else:
+                    states = frozenset((False, f) for (_h, f) in states)
+            elif isinstance(n, ast.Subscript) and isF(n.value) and isinstance(n.ctx, ast.Load) and const_value(n.slice) == 0:
+                if any(not h for (h, _f) in states):
+                    out.append((n, f'`{short(n)}` is read as the smallest entry, but a removal whose restore was deferred (flag `{D}` up) may not have been restored '
+                                   f'on this path: {F}[0] need not be the minimum'))
+            elif isinstance(n, ast.Call) and isinstance(n.func, ast.Attribute) and isF(n.func.value):
+                m = n.func.attr
+                if m == 'clear':
+                    states = frozenset((True, f) for (_h, f) in states)
+                elif m == 'pop' and not n.args:
+                    pass
+                elif m in LIST_MUTATORS:
+                    states = frozenset((False, f) for (_h, f) in states)
+            elif isinstance(n, ast.Subscript) and isF(n.value) and isinstance(n.ctx, (ast.Store, ast.Del)):
+                states = frozenset((False, f) for (_h, f) in states)
+            elif isinstance(n, ast.Call) and isinstance(n.func, ast.Attribute) and isinstance(n.func.value, ast.Name) and n.func.value.id == 'self' \
+                    and n.func.attr in ci.methods and depth < 3:
+                callee = ci.methods[n.func.attr]
+                states = walk_fn(callee, states, out, depth + 1)
+        return states
+
+    def walk_block(stmts, states, out, rets, where, depth):
+        for st in stmts:
+            if not states:
+                return states
+            if isinstance(st, ast.If):
+                t = st.test
+                neg = False
+                while isinstance(t, ast.UnaryOp) and isinstance(t.op, ast.Not):
+                    t, neg = t.operand, not neg
+                if is_self_attr(t, D):
+                    s_t = frozenset(x for x in states if x[1] != neg)
+                    s_f = frozenset(x for x in states if x[1] == neg)
+                else:
+                    states = step_expr(st.test, states, out, where, depth)
+                    s_t = s_f = states
+                a = walk_block(st.body, s_t, out, rets, where, depth)
+                b = walk_block(st.orelse, s_f, out, rets, where, depth)
+                states = a | b
+            elif isinstance(st, ast.Return):
+                if st.value is not None:
+                    states = step_expr(st.value, states, out, where, depth)
+                rets.append(states)
+                return frozenset()
+            elif isinstance(st, ast.Raise):
+                return frozenset()
+            elif isinstance(st, (ast.Assign, ast.AnnAssign)) and getattr(st, 'value', None) is not None:
+                states = step_expr(st.value, states, out, where, depth)
+                for t in (st.targets if isinstance(st, ast.Assign) else [st.target]):
+                    if is_self_attr(t, D) and isinstance(st.value, ast.Constant):
+                        states = frozenset((h, bool(st.value.value)) for (h, _f) in states)
+                    elif isF(t):
+                        states = frozenset((_is_empty_list(st.value), f) for (_h, f) in states)
+                    else:
+                        states = step_expr(t, states, out, where, depth)
+            elif isinstance(st, (ast.For, ast.While)):
+                if isinstance(st, ast.For):
+                    states = step_expr(st.iter, states, out, where, depth)
+                acc = states
+                for _i in range(4):
+                    if isinstance(st, ast.While):
+                        acc = step_expr(st.test, acc, out if _i == 3 else [], where, depth)
+                    nxt = walk_block(st.body, acc, out if _i == 3 else [], rets if _i == 3 else [], where, depth) | acc
+                    if nxt == acc and _i < 3:
+                        continue
+                    acc = nxt
+                states = walk_block(st.orelse, acc, out, rets, where, depth) if st.orelse else acc
+            elif isinstance(st, ast.Try):
+                a = walk_block(st.body, states, out, rets, where, depth)
+                hs = frozenset()
+                for h in st.handlers:
+                    hs |= walk_block(h.body, states | a, out, rets, where, depth)      # the exception may come before or after the effects of the body
+                a = walk_block(st.orelse, a, out, rets, where, depth) if st.orelse else a
+                states = a | hs
+                if st.finalbody:
+                    states = walk_block(st.finalbody, states, out, rets, where, depth)
+            elif isinstance(st, ast.With):
+                states = walk_block(st.body, states, out, rets, where, depth)
+            elif isinstance(st, ast.Delete):
+                for t in st.targets:
+                    states = step_expr(t, states, out, where, depth)
+            elif isinstance(st, (ast.Expr, ast.AugAssign)):
+                states = step_expr(st.value, states, out, where, depth)
+            elif isinstance(st, (ast.Pass, ast.Break, ast.Continue, ast.Assert, ast.Global, ast.Nonlocal)):
+                pass
+        return states
+
+    def walk_fn(fn, states, out, depth):
+        rets = []
+        end = walk_block(body_of(fn), states, out, rets, fn.name, depth)
+        res = end
+        for r in rets:
+            res |= r
+        return res
+
+    for mname, fn in ci.methods.items():
+        out = []
+        entry = frozenset({(True, False)}) if mname == '__init__' else INV
+        end = walk_fn(fn, entry, out, 0)
+        if any((not h) and (not f) for (h, f) in end):
+            out.append((fn, f'{mname}() can return with the heap order of {F} broken and the flag `{D}` down: nothing will restore the order before the next '
+                            f'pop_first / peek_first'))
+        problems[mname] = out
+    return D, problems
 
 
 def classify_mutations(a, isF, node):
@@ -555,9 +715,41 @@ def r15_observers(ctx, cname, ci, F, ev_index, isF, writer=None):
     ctx.ob('R1.5', f'{cname}.is_empty', ok, sample=f'{cname}.is_empty returns {[ctext(prog, cname, r.value) for r in rs if r.value is not None]}')
     if not ok:
         ctx.finding('R1.5', f'{cname}.is_empty', ci, fn, 'is_empty() is not an emptiness test of the backing list', where=f'{cname}.is_empty')
+    # an index kept beside the list (dict / set of event ids bound empty in the constructor): interpreted together with the list
+    init_ = ci.methods.get('__init__')
+    index_fields = []
+    if init_ is not None:
+        for a_ in walk_shallow(init_):
+            if isinstance(a_, (ast.Assign, ast.AnnAssign)) and getattr(a_, 'value', None) is not None:
+                v_ = a_.value
+                empty_ = (isinstance(v_, ast.Dict) and not v_.keys) or (isinstance(v_, ast.Call) and unparse(v_.func) in ('dict', 'set') and not v_.args)
+                for t_ in (a_.targets if isinstance(a_, ast.Assign) else [a_.target]):
+                    if empty_ and is_self_attr(t_) and t_.attr != F:
+                        index_fields.append(t_.attr)
+    e12cfg = {'index_fields': index_fields, 'id_index': (writer.index('id') if writer and 'id' in writer and writer != ('event',) else None),
+              'ev_index': ev_index, 'comp_of': lambda e_, evn_: classify_component(prog, e_, evn_)}
+    if index_fields and writer is not None:
+        from ..seqsearch import check_index_consistency
+        ms_ = {m_: ci.methods[m_] for m_ in ('add', 'pop_first', 'peek_first', 'contains', 'remove', 'clear') if m_ in ci.methods}
+        ip, ip_why = check_index_consistency(prog, cname, F, (lambda e, evn: (writer == ('event',)) if e is None else (
+            isinstance(e, ast.Tuple) and tuple(classify_component(prog, x, evn) for x in e.elts) == writer)), e12cfg['comp_of'], index_fields, ev_index,
+            e12cfg['id_index'], ms_)
+        if ip is None:
+            ctx.ob('R1.5', f'{cname}:index', False, sample=f'{cname} keeps {index_fields} beside the list; not interpreted ({ip_why})')
+            ctx.finding('R1.5', f'{cname}:index:unsupported', ci, init_, f'{cname} keeps {index_fields} beside {F} and consults it, but the methods that maintain it are outside '
+                        f'the domain of the case interpreter ({ip_why}): that it records exactly the pending events is not shown', where=cname)
+        else:
+            ctx.examined(len(ms_) * 4)
+            ctx.ob('R1.5', f'{cname}:index', not ip, sample=f'{cname}: {index_fields} record an event exactly while it is on the list, after every method and case: {not ip}')
+            seen_ = set()
+            for (m_, desc, what) in ip:
+                if m_ in seen_:
+                    continue
+                seen_.add(m_)
+                ctx.finding('R1.5', f'{cname}.{m_}:index', ci, ci.methods[m_], f'{m_}() when {desc}: {what}', where=f'{cname}.{m_}')
     # peek_first / pop_first: by cases (empty / non-empty) when loop-free, else the syntactic rule
     from ..seqsearch import check_peek_pop
-    pp, pp_why = check_peek_pop(prog, cname, F, ev_index, need('peek_first'), need('pop_first'))
+    pp, pp_why = check_peek_pop(prog, cname, F, ev_index, need('peek_first'), need('pop_first'), e12cfg)
     if pp is not None:
         for m in ('peek_first', 'pop_first'):
             ctx.examined()
@@ -607,7 +799,7 @@ def r15_observers(ctx, cname, ci, F, ev_index, isF, writer=None):
         if e is None:
             return writer == ('event',)
         return isinstance(e, ast.Tuple) and writer is not None and tuple(classify_component(prog, x, evn) for x in e.elts) == writer
-    probs, why = check_observers(prog, cname, F, is_key, need('contains'), need('remove')) if writer is not None else (None, 'no key')
+    probs, why = check_observers(prog, cname, F, is_key, need('contains'), need('remove'), e12cfg) if writer is not None else (None, 'no key')
     if probs is not None:
         for kind in ('contains', 'remove'):
             ctx.examined()
